@@ -32,6 +32,11 @@ META = {
 
 P = "MjProof.C14."
 THEOREMS = [P + t for t in (
+    "sap_complete", "sap_no_drop", "sap_sound", "sap_touching", "mjSAP_all", "yzPrune_comm", "cmpInt_totalPreorder",
+    "filterBitmask_spec", "filterBodyPair_spec", "filterBodyPair_symm", "filterBox_spec", "filterSphere_spec",
+    "filterSphere_keep_iff", "filterSphereBox_spec",
+    "filters_match_spec", "broadphase_exact", "driver_eq_bruteforce_partial", "exM_wf", "exM_broad",
+    "contactCompare_le_iff", "contactCompare_totalPreorder", "contact_order_deterministic",
 )]
 
 KERNELS = ["filterBitmask", "filterBodyPair", "filterBox", "filterSphereBox", "filterSphere"]
@@ -449,10 +454,14 @@ def scene_line(j):
 
 
 def parse_model_out(out):
-    """'bf s,s | items' -> (bf list or error string, items or error string)"""
+    """'bf s,s | items | sap b:b,...' -> (bf list or error string, items or error string, sap pair list)"""
     if " | " not in out:
         return None
-    a, b = out.split(" | ", 1)
+    parts = out.split(" | ")
+    if len(parts) != 3 or not parts[2].startswith("sap"):
+        return None
+    a, b = parts[0], parts[1]
+    sap = [tuple(int(x) for x in t.split(":")) for t in parts[2][3:].strip().split(",") if t]
     bf = None
     if a.startswith("bf-error "):
         bf = ("error", a[9:])
@@ -473,7 +482,7 @@ def parse_model_out(out):
                 g1, g2, k = (int(x) for x in t.split(":"))
                 its.append(("cand", g1, g2, k))
         items = ("ok", its)
-    return bf, items
+    return bf, items, sap
 
 
 def expected_margin(j, g1, g2, k):
@@ -490,7 +499,7 @@ def compare_scene(j, mout):
     pm = parse_model_out(mout)
     if pm is None or pm[0] is None or pm[1] is None:
         return "model output unparsable: " + mout[:200]
-    bf, items = pm
+    bf, items, _ = pm
     if "error" in j:
         # the engine raised mju_error: the model must raise the same error
         if items[0] == "error" and items[1].strip() == j["error"].strip():
@@ -531,6 +540,65 @@ def compare_scene(j, mout):
     if idx != len(calls):
         return "engine made %d narrow-phase calls, the model accounts for %d (next: %s)" % (len(calls), idx, calls[idx][:2])
     return None
+
+
+def check_hypotheses(j, mout):
+    """The hypotheses of driver_eq_bruteforce_partial on one real scene: WF (compiler invariants), symmetry of the sphere test,
+    and BroadComplete for close := "the narrow phase reports a contact".  Returns a list of violated hypothesis names."""
+    bad = []
+    nb, ng = j["nbody"], j["ngeom"]
+    gb = j["geom_bodyid"]
+    if nb > 65536:
+        bad.append("nbody_le")
+    for b in range(nb):
+        rng_ = set(range(j["body_geomadr"][b], j["body_geomadr"][b] + j["body_geomnum"][b])) if j["body_geomnum"][b] else set()
+        if rng_ != {g for g in range(ng) if gb[g] == b}:
+            bad.append("geom_body")
+            break
+    for k in range(j["npair"]):
+        b1, b2 = gb[j["pair_geom1"][k]], gb[j["pair_geom2"][k]]
+        if j["pair_signature"][k] != (b1 << 16) + b2 or b1 > b2:
+            bad.append("pair_sig")
+            break
+    if j["pair_signature"] != sorted(j["pair_signature"]):
+        bad.append("pairs_sorted")
+    if j["exclude_signature"] != sorted(j["exclude_signature"]):
+        bad.append("excl_sorted")
+    for b in range(nb):
+        ct = ca = 0
+        for g in range(ng):
+            if gb[g] == b:
+                ct |= j["geom_contype"][g]
+                ca |= j["geom_conaffinity"][g]
+        if (ct, ca) != (j["body_contype"][b], j["body_conaffinity"][b]):
+            bad.append("body_masks")
+            break
+    if j["body_weldid"][0] != 0 or j["body_parentid"][0] != 0:
+        bad.append("world")
+    near = set((a, b) for a, b in j["near"])
+    if any((b, a) not in near for (a, b) in near):
+        bad.append("near_symm")
+    pm = parse_model_out(mout)
+    if pm is not None and "error" not in j:
+        sap = set(pm[2])
+        w, dof, gt = j["body_weldid"], j["body_dofnum"], j["geom_type"]
+
+        def always(b):
+            if b == 0:
+                return j["body_geomnum"][0] > 0
+            return dof[w[b]] == 0 and any(gt[g] == PLANE for g in range(ng) if gb[g] == b)
+        for row in j["brute"]:
+            g1, g2 = row[0], row[1]
+            b1, b2 = gb[g1], gb[g2]
+            if b1 == 0 or b2 == 0 or b1 == b2:
+                continue
+            # only pairs whose bodies can be in the SAP list at all (collidable) matter for BroadComplete as used
+            if not (j["body_contype"][b1] or j["body_conaffinity"][b1]) or not (j["body_contype"][b2] or j["body_conaffinity"][b2]):
+                continue
+            if not (always(b1) or always(b2) or (b1, b2) in sap or (b2, b1) in sap):
+                bad.append("BroadComplete(%d,%d)" % (g1, g2))
+                break
+    return bad
 
 
 # ------------------------------------------------------------------------------------------- property oracle (Python transcription of the documented rules)
@@ -837,16 +905,30 @@ def run(ctx):
     if rcm != 0 or len(mouts) != len(mlines):
         raise common.Infra("drv_c14 failed on scene lines: rc=%d %s" % (rcm, merr[-300:]))
     bad = []
+    hyp_bad, hyp_samples = {}, []
     for l, o, (j, rp) in zip(mlines, mouts, mref):
         ctx.count(l, nontrivial=bool(j.get("calls")))
         why = compare_scene(j, o) if o != "bad-op" else "the model driver rejected the scene line (bad-op)"
         if why:
             bad.append({"line": l[:1500], "model": o[:600], "impl": why, "scene": rp["what"]})
+        for hname in check_hypotheses(j, o):
+            hyp_bad[hname.split("(")[0]] = hyp_bad.get(hname.split("(")[0], 0) + 1
+            if len(hyp_samples) < 3:
+                hyp_samples.append({"hypothesis": hname, "scene": rp["what"], "run_index": rp.get("run_index")})
         stats["midphase_groups"] += o.count("M:")
     ctx.oblige("correspondence mj_broadphase output + narrow-phase candidate sequence of mj_collision vs Lean model (%d scene runs)"
                % len(mlines), "correspondence", not bad, json.dumps(bad[:3])[:1900])
     if bad:
         ctx.disagreements += [dict(b, stream="scenes") for b in bad[:20]]
+    # hypotheses of driver_eq_bruteforce_partial hold on the real scenes (so the theorem applies to them).  BroadComplete is the
+    # unmodelled makeAAMM geometry: its violations are reported as oracle failures, not as tie failures
+    wf_bad = {k: v for k, v in hyp_bad.items() if k != "BroadComplete"}
+    ctx.oblige("hypotheses of driver_eq_bruteforce_partial (WF: geom/body partition, pair signatures, sortedness, body masks, world "
+               "weld; symmetric sphere test) hold on all %d scene runs" % len(mlines), "hypothesis-check", not wf_bad, json.dumps(wf_bad))
+    ctx.extra["hypothesis_violations"] = hyp_bad
+    if hyp_bad.get("BroadComplete"):
+        fail("c14:broadphase-incomplete", "a geom pair for which the narrow phase reports a contact has bodies that are neither in the "
+             "init-loop class nor reported by mj_SAP on the AAMMs of makeAAMM (%d runs)" % hyp_bad["BroadComplete"], hyp_samples[:3])
     if mlines:
         ctx.sample({"scene_op": mlines[len(mlines) // 2][:300] + " ...", "model_output": mouts[len(mlines) // 2][:200]})
     ctx.extra["scene_stats"] = stats
